@@ -397,7 +397,7 @@ def decode_value(e):
 def judge_file(ctx, path, metas, what, leg='C2S'):
     """run Trace_Render over one ndjson file; metas: id -> (meta, case description)"""
     n = len(metas)
-    res = ctx.tlc('Trace_Render', 'Trace_Render.cfg', leg=leg, workers=1, env={'TRACE_FILE': path}, jvm=('-Xmx3g',),
+    res = ctx.tlc('Trace_Render', 'Trace_Render.cfg', leg=leg, workers=1, env={'TRACE_FILE': path}, jvm=('-Xmx3g', '-Xss32m'),
                   timeout=ctx.pick(900, 3600))
     rejected = [p for p in res.printed if isinstance(p, dict) and p.get('verdict') == 'rejected']
     if res.violated or res.post_failed or res.depth - 1 != n:
